@@ -1,5 +1,6 @@
 import BFL.Driver.Proto
 import BFL.Model.Fault
+import BFL.Model.FaultEntry
 /-
 Driver entries for C12 (beliefs instantiated symbolically: `Sym`).
 
@@ -70,11 +71,11 @@ def likOf (c : String) (site : Site) : Option (Script → FR (Option Unit)) :=
   | "s" => some (scriptedLik () site)
   | _ => none
 
-def sisSteps (lik : Script → FR (Option Unit)) : Nat → Nat → Script → List String
-  | 0, _, _ => []
-  | fuel + 1, i, s =>
-    let r := sisCorrectPhase (fun s p _ => bootCorrect lik (fun p _ => Sym.updated p) s p) Sym.normalised s Sym.pred Sym.poison
-    ("s" ++ toString i ++ ":" ++ symLabel r.val ++ ":" ++ logStr r.log) :: sisSteps lik fuel (i + 1) r.script
+/-- the SIS loop (`sisRun`): each step's predicted set is the reference `Sym.pred` of that step's label -/
+def sisSteps (lik : Script → FR (Option Unit)) (n i : Nat) (s : Script) : List String :=
+  let run := sisRun (fun _ => Sym.pred)
+    (correctEntry false (fun s p _ => bootCorrect lik (fun p _ => Sym.updated p) s p)) Sym.normalised id n true s Sym.pred
+  run.zipIdx.map fun (st, j) => "s" ++ toString (i + j) ++ ":" ++ symLabel st.res.val ++ ":" ++ logStr st.res.log
 
 /-- `reps` successive calls on the same object, the script being consumed across the calls -/
 def repeatCalls (f : Script → String × String × Script) : Nat → Nat → Script → List String
@@ -150,7 +151,8 @@ def faultLine : P String := do
   | ["gpf", w, l] =>
     match gaussOf w m k sub, likOf l .gpf with
     | some g, some lk =>
-      let o := hand lk g
+      -- the wrapped correction is reached through its public `correct` (`gpfCorrectW false`)
+      let o := hand lk (correctEntry false g)
       if alias then go (sym (fun s => gpfCorrectInPlace o.gauss Sym.sampled o.lik (fun p c _ => Sym.weighed p c) s Sym.pred))
       else go (sym (fun s => ({ o with models := s }).gpfCorrect Sym.sampled (fun p c _ => Sym.weighed p c) Sym.pred Sym.poison))
     | _, _ => failure
@@ -162,7 +164,10 @@ def faultLine : P String := do
     | none => failure
   | [c] =>
     match gaussOf c m k sub with
-    | some g => go (sym (fun s => if alias then gaussInPlace g s Sym.pred else g s Sym.pred cin))
+    | some g =>
+      -- through the public entry point `GaussianCorrection::correct` (not skipped)
+      let g := correctEntry false g
+      go (sym (fun s => if alias then gaussInPlace g s Sym.pred else g s Sym.pred cin))
     | none => failure
   | _ => failure
 
